@@ -53,6 +53,7 @@ def check(chk: Check) -> None:
     paths = SymExec(F, fi).run()
     filt, loop, val = [], [], []
     n_yield = 0
+    n_exit = [0]
     for p in paths:
         toks = [e for e in p.events if e.kind == 'call' and freeze(e.func) == ('attr', lex, 'token')]
         other_lexers = [e for e in p.events if e.kind == 'call' and isinstance(freeze(e.func), tuple) and freeze(e.func)[0] == 'attr'
@@ -93,6 +94,10 @@ def check(chk: Check) -> None:
         if ended:
             if not (is_none and is_none[0]):
                 loop.append('the loop is left although the lexer has not returned None (early exit: later names are not reported)')
+            else:
+                n_exit[0] += 1
+        elif is_none and is_none[0] and p.normal:
+            n_exit[0] += 1          # `while (t := token()) is not None:` falls off the end of the generator
         if is_none and is_none[0] and not ended and p.normal:
             pass
         for c, v in typed:
@@ -112,6 +117,12 @@ def check(chk: Check) -> None:
                 val.append('yields %s instead of the token\'s value' % show(y.value))
     if n_yield == 0:
         filt.append('nothing is ever yielded')
+    endless = any(isinstance(n_, ast.While) and isinstance(n_.test, ast.Constant) and n_.test.value is True for n_ in ast.walk(fi.node))
+    has_loop_tests = any(e.kind in ('loop_test', 'loop_skip') and not (isinstance(e.node, ast.While) and isinstance(e.node.test, ast.Constant))
+                         for p in paths for e in p.events)
+    if not n_exit[0] and not loop and endless and not has_loop_tests:
+        loop.append('no path ends the generator when the lexer returns None: after the last token the loop goes on with None (t.type raises '
+                    'AttributeError at the end of every text)')
     chk.require(not loop, R1, q + ' :: loop', fi.where, '; '.join(sorted(set(loop))) or 'asks self.lex for tokens until None')
     chk.require(not filt, R1, q + ' :: filter', fi.where, '; '.join(sorted(set(filt))) or 'yields exactly the tokens with type == %r' % IDENT)
     chk.require(not val, R1, q + ' :: value', fi.where, '; '.join(sorted(set(val))) or 'yields t.value unchanged')
